@@ -82,6 +82,7 @@ let handle (x : sexp) : (string * string) list =
     let s = schema_cached sch in
     let us = List.map universe_of unis in
     let out = ref [] in
+    let reordered = ref false in
     let fail st d = out := (st, clean d) :: !out in
     let (odoc, oname, ovars) = match find "orig" rest with
       | Some [d; n; v] -> (doc_of d, opt_name n, json_of v)
@@ -108,6 +109,7 @@ let handle (x : sexp) : (string * string) list =
       (* exec_preserved *)
       let check_exec what d' v' =
         List.iteri (fun i u ->
+            if exec_preserved_b s u odoc oname ovars d' oname v' && not (exec_ordered_b s u odoc oname ovars d' oname v') then reordered := true;
             if not (exec_preserved_b s u odoc oname ovars d' oname v') then begin
               let f = big_fuel odoc d' in
               let r1 = execute f s u Mono odoc oname ovars and r2 = execute f s u Mono d' oname v' in
@@ -182,7 +184,7 @@ let handle (x : sexp) : (string * string) list =
          if norm_selections s vars first <> !cur then
            fail "mismatch" (Printf.sprintf "corr:C03/composition %s" id)
      | _ -> raise (Sexp_error "chain"));
-    if !out = [] then [("ok", (if doc_has_redex odoc then "nt " else "tr ") ^ id ^ (if malformed then " malformed" else ""))] else List.rev !out
+    if !out = [] then [("ok", (if doc_has_redex odoc then "nt " else "tr ") ^ id ^ (if malformed then " malformed" else "") ^ (if !reordered then " reordered" else ""))] else List.rev !out
   | _ -> raise (Sexp_error "case")
 
 let () =
